@@ -571,6 +571,14 @@ func (c *ctx) zkRecord(d *zkDef, k *zkKeys, j *zkJob) {
 			c.res.Violate("property", key+"/honest-rejected", rp.What, rp)
 		}
 	case expReject:
+		if j.gv == vAccept && j.mv == vAccept && strings.HasPrefix(j.cs, "false-statement/") {
+			// a proof GENERATED for a statement in which one component was replaced: when the witness is degenerate (e.g. zkelog with
+			// lambda = 0: M does not depend on X) the replaced statement is still TRUE and the proof legitimately verifies. The model's
+			// verifier (equations proved in Coq) accepts it as well: no verdict. A verifier that accepts what the model rejects is
+			// reported below as before (and as a verdict mismatch above).
+			c.res.Case("false-statement/statement-still-true(model-accepts)", key, false)
+			return
+		}
 		if j.gv == vAccept {
 			rp.What = "a perturbed (statement, context, proof) triple verifies"
 			c.res.Violate("property", key+"/accepted", rp.What, rp)
